@@ -108,6 +108,17 @@ Section Combi.
       pose proof (least_level_range d xd (Z.to_nat (ld0 - lmin)) lmin). lia.
   Qed.
 
+  Lemma level_of_in_grid : forall x d l0, in_grid d x l0 = true -> Forall (fun v => lmin <= v) l0 ->
+    in_grid d x (level_of d x l0) = true.
+  Proof.
+    induction x as [|xd x IH]; intros d l0 H F.
+    - destruct l0; [reflexivity|discriminate].
+    - destruct l0 as [|ld0 l0]; [discriminate|]. simpl in H. apply andb_true_iff in H. destruct H as [Hm H].
+      inversion F as [|? ? Hld F']; subst. simpl. apply andb_true_iff. split; [|apply IH; assumption].
+      apply memX_In. apply least_level_in. apply memX_In in Hm.
+      replace (lmin + Z.of_nat (Z.to_nat (ld0 - lmin))) with ld0 by lia. assumption.
+  Qed.
+
   (* the scheme *)
   Variable idx : list lv.
   Variable cs : list (lv * Z).
